@@ -15,8 +15,12 @@
 //	c06.history   Sign sequences on key objects whose scalar is >= n-1 (SM2 curve through
 //	              FromECPrivateKey, legacy curves through the sm2 package): always an error,
 //	              never a panic, bounded reads
-//	c06.legacy    the math/big legacy path (NIST P-256, generic copy of the SM2 parameters):
-//	              completeness and a small accept-set sweep against generic arithmetic
+//	c06.legacy    the math/big legacy path (NIST P-224/256/384/521, a generic copy of the SM2 parameters,
+//	              custom secp192r1 / secp160r1): completeness of every signing entry point with planted
+//	              retry conditions, rejected blocks and extreme nonces; a small accept-set sweep
+//	c06.ledge     the same path, signatures constructed without the library on every one of those curves:
+//	              prescribed structured (r,s), traps, prescribed points, reference signer, and around each the
+//	              whole out-of-range / re-encoded neighbourhood; verdicts from verifh/ref/wec
 package c06
 
 import (
@@ -43,6 +47,7 @@ func init() {
 	reg.Register("c06.edge", "C06", edge)
 	reg.Register("c06.history", "C06", history)
 	reg.Register("c06.legacy", "C06", legacy)
+	reg.Register("c06.ledge", "C06", ledge)
 }
 
 var (
